@@ -169,6 +169,7 @@ def inject(s, vc_files):
     info = {'fns': {}, 'items': [], 'rewrites': []}
     root_txt = []
     log = []
+    deferred = []
     for path in vc_files:
         tops = parse_vc(path)
         for top in tops:
@@ -176,6 +177,9 @@ def inject(s, vc_files):
                 root_txt.append('// from %s:%d\n' % (os.path.basename(path), top.lineno) + top.text())
                 continue
             if top.kind == 'module':
+                deferred.append(top)
+                continue
+            if False:
                 owner = top.owner
                 if owner is None:
                     raise SystemExit('%s:%d module without item' % (path, top.lineno))
@@ -274,6 +278,16 @@ def inject(s, vc_files):
                         raise Lost('%s:%d rewrite matched %d != %d: %s' % (os.path.basename(path), sub.lineno, n, cnt, rx))
                     s = s[:lo] + seg + s[hi:]
                     info['rewrites'].append(('rewrite', rx, n))
+    for top in deferred:
+        owner = top.owner
+        if owner is None:
+            raise SystemExit('%s:%d module without item' % (top.src, top.lineno))
+        mk = '/*VS:%s:%d*/' % (os.path.basename(owner.src), owner.lineno)
+        k = s.find(mk)
+        if k < 0:
+            raise Lost('module marker for %s' % mk)
+        k = s.find('\n', k) + 1
+        s = s[:k] + OPEN + top.text() + CLOSE + s[k:]
     info['root'] = '\n'.join(root_txt)
     info['log'] = log
     return s, info
